@@ -50,7 +50,7 @@ type c01Spec struct {
 	Waiters    int       `json:"waiters"`
 	EndAt      int       `json:"end_ms"`
 	PostCalls  int       `json:"post_calls"`
-	Storm      int       `json:"storm,omitempty"` // client side: this many peer requests are parked in handlers when the reader hits EOF
+	Storm      int       `json:"storm,omitempty"`  // client side: this many peer requests are parked in handlers when the reader hits EOF
 	Modern     bool      `json:"modern,omitempty"` // client side: the session is negotiated at 2026-07-28 (server/discover); post-termination calls include Subscribe
 }
 
@@ -251,9 +251,9 @@ func runC01(c *vh.Case, spec c01Spec) {
 	var (
 		doSubscribe func(ctx context.Context, n int) error
 		doCall      func(ctx context.Context, n int) (string, error)
-		doClose func() error
-		doWait  func() error
-		server  *mcp.Server
+		doClose     func() error
+		doWait      func() error
+		server      *mcp.Server
 	)
 	if spec.Side == "client" {
 		var copts *mcp.ClientOptions
